@@ -652,3 +652,18 @@ def run_extra(ctx, quick):
             ctx.violation("broken", what, {"theorem_or_correspondence": "impl != Sinc.Extra (micro-step replay, harness c10_extra)" if mismatches else pr["file"],
                                            "first_mismatch": mismatches[0] if mismatches else None, "coq_log": pr["log"][-1500:],
                                            "known_class_failures": {s: w for s, (w, c) in known.items()}}, no_input=True)
+
+
+def replay_extra(ctx, case):
+    """re-run the recorded session of harness c10_extra and print its trace (called from c10.replay)"""
+    lines = case["input_lines"]
+    cfg = case.get("config", [1, 1])
+    exe = ctx.link("c10_extra", ["c10_extra.c"], exclude=["sincs/donecount.c"])
+    res = run_impl(exe, [lines], core.qenv(cfg[0], cfg[1], stack=65536, MALLOC_PERTURB_=165), 600, ctx.notes, 60)
+    out = res[0] or ["TIMEOUT"]
+    print("\n".join(out[-20:]))
+    bad = any(l.startswith("TIMEOUT") or "UAF" in l for l in out)
+    if bad:
+        ctx.violation("replay", "replayed life-cycle session of the sinc still fails (watchdog or access to freed memory)", case)
+    else:
+        print("# replay ran on harness c10_extra; compare the printed trace with the reason recorded in the replay file")
